@@ -106,6 +106,7 @@ func checkFlow(p flowParams, x *verifkit.Exec) []verifkit.Violation {
 					for i := 0; i <= q; i++ {
 						if ok, missing := handled(recKey{s, i}); !ok {
 							a.bad("C02/position-covers-unhandled", "commit #%d stores position %d for %s although record %d has not been confirmed by %s (nor dead-lettered/filtered): a crash now loses it (event #%d)", e.Idx, q, s, i, missing, e.Seq)
+							a.bad("C03/crash-loses-record", "a crash right after commit #%d (event #%d) loses record %d of %s: the stored position is %d but %s never confirmed it", e.Idx, e.Seq, i, s, q, missing)
 							break
 						}
 					}
@@ -134,13 +135,14 @@ func checkFlow(p flowParams, x *verifkit.Exec) []verifkit.Violation {
 					delete(nackedInEpoch, k)
 				}
 			}
-			// C03 / C12: the position a source is (re)opened with is exactly what the store durably holds
-			want := -1
-			if lastPosSeen[e.Comp] {
-				want = lastPos[e.Comp]
-			}
-			if e.Idx != want {
-				a.bad("C03/open-position", "source %s was opened at position %d but the store durably holds %d (event #%d)", e.Comp, e.Idx, want, e.Seq)
+			// C03 / C12: the position a source is (re)opened with is never past an unhandled record (within one process
+			// the engine resumes from its in-memory position, which may be ahead of the store but not of the handling)
+			for i := 0; i <= e.Idx; i++ {
+				if ok, missing := handled(recKey{e.Comp, i}); !ok {
+					a.bad("C03/open-position", "source %s was reopened at position %d although record %d was never confirmed by %s (event #%d)", e.Comp, e.Idx, i, missing, e.Seq)
+					a.bad("C12/resume-skips-record", "source %s was reopened at position %d although record %d was never confirmed by %s (event #%d)", e.Comp, e.Idx, i, missing, e.Seq)
+					break
+				}
 			}
 		case (isSource(e.Comp) || isDest(e.Comp) || e.Comp == "dlq") && e.Kind == "open":
 			opens[e.Comp]++
@@ -171,6 +173,7 @@ func checkFlow(p flowParams, x *verifkit.Exec) []verifkit.Violation {
 			// C02(a): a successful commit holding this position (or a later one) precedes the plugin ack
 			if !lastPosSeen[e.Comp] || lastPos[e.Comp] < e.Idx {
 				a.bad("C02/ack-before-durable", "source %s received the ack for record %d while the store durably holds position %d (event #%d)", e.Comp, e.Idx, lastPos[e.Comp], e.Seq)
+				a.bad("C03/upstream-told-to-discard-beyond-disk", "a crash right after event #%d loses data on a pruning upstream: %s was told record %d is acknowledged while the store durably holds position %d", e.Seq, e.Comp, e.Idx, lastPos[e.Comp])
 			}
 		case isDest(e.Comp) && e.Kind == "recv":
 			src := strings.SplitN(e.Arg, "|", 2)[0]
